@@ -61,8 +61,14 @@ package config
 //@   loop 1 invariant cfg.Factory.Gamepads != nil && cfg.Factory.Keyboards != nil && cfg.User.Gamepads != nil && cfg.User.Keyboards != nil
 //@   safety [C12]
 
+// C09 after the repair F17: ParseData (and LoadHIDIConfig) run under a deferred recover, so a panic anywhere below them is
+// returned as an error and is no longer a violation of C09. What C09 needs is (1) that the recover is installed before the
+// decoder is called (obligation at the `maypanic` externs), (2) panic-freedom of what runs OUTSIDE the recover
+// (readDeviceConfig), (3) termination: only structurally bounded loops. The panic-freedom obligations of the functions
+// under the recover are still generated (tag ROB: robustness, not claimed by any property).
 //@ func readDeviceConfig
 //@   safety [C09,C12]
+//@   terminates [C09]
 
 // ---- C10: what is accepted says what the (decoded) file says, and everything is within its MIDI range.
 // "What the file states" is taken at the decoded TOML struct (the decoder itself is assumed, see extern.hvc).
@@ -108,13 +114,15 @@ package config
 //@   loop 4 invariant [C05] forall j int, sub string :: 0 <= j && j < idx(1) - 1 ==> allocated(keyMapping[j].Analog) && allocated(keyMapping[j].DefaultDeadzone) && keyMapping[j].Analog != analogMapping && keyMapping[j].DefaultDeadzone != defaultDeadzone && (has(keyMapping[j].Analog, sub) ==> has(keyMapping[j].DefaultDeadzone, sub))
 //@   loop 9 invariant [C10] len(exitSequence) == idx() && idx() >= 0 && idx() <= len(cfg.ExitSequence)
 //@   loop 8 invariant [C10] idx() >= 0 && idx() <= len(keyMapping) && mappingIndex >= -1 && mappingIndex < idx() && (mappingIndex >= 0 ==> keyMapping[mappingIndex].Name == cfg.Defaults.Mapping)
-//@   safety [C09]
+//@   safety [ROB]
+//@   terminates [C09]
 
 //@ func TomlKeyToEvCode
 //@   let hex := ext("strings.HasPrefix", key, "x", "bool")
 //@   ensures [C10] !hex && result.1 == nil ==> has(lookupTable, key) && result.0 == lookupTable[key]
 //@   ensures [C10] !hex && !has(lookupTable, key) ==> result.1 != nil
-//@   safety [C09]
+//@   safety [ROB]
+//@   terminates [C09]
 //@   modifies nothing
 
 // ---- C11: note names
@@ -150,9 +158,10 @@ package config
 
 //@ func StringToNote
 //@   ensures [C11] validNote(note) ==> result.1 == nil
-//@   ensures [C11] result.1 == nil ==> validNote(note)
-//@   ensures [C11] validNote(note) ==> int(result.0) == noteNum(note)
-//@   safety [C09,C11]
+//@   ensures [C10,C11] result.1 == nil ==> validNote(note)
+//@   ensures [C10,C11] validNote(note) ==> int(result.0) == noteNum(note)
+//@   safety [C11]
+//@   terminates [C09]
 //@   modifies nothing
 
 //@ func NoteToOctave
